@@ -43,6 +43,19 @@ CLAIMED = {
         "design_ref": "DESIGN.md section 4, C09",
         "note": "least-squares equivariance contract for the linear solver; time constants of the rescaled problem assumed tau/s; floats as reals",
     },
+    "C12": {
+        "category": "other",
+        "text": "The real fit_circuit, _fit_process, _to_lmfit, _from_lmfit, _residual, _convert_intermediate_result and _extract_parameters run on "
+                "circuits (R(RC), RQ, with and without a constraint expression) whose start values, limits (finite/infinite) and fixed flags are "
+                "symbolic, around a contract stub of lmfit.minimize (varied parameters end anywhere inside [min,max], fixed keep their value, expr "
+                "follow their expression). z3 decides whether a returned value can leave its limits, a fixed parameter can change, a constraint "
+                "expression can fail, the parameter table can disagree with the returned circuit, or the circuit passed in can be modified; a "
+                "start value outside its limits is refused before the optimiser runs; among 3 methods (each succeeding or failing, symbolic "
+                "distinct chi-squared) the successful fit with the smallest pseudo chi-squared is returned, serially and in parallel.",
+        "design_ref": "DESIGN.md section 4, C12",
+        "note": "PARTIAL: recovery of the generating parameters / vanishing chi-squared on noise-free data is optimiser behaviour and is not claimed; "
+                "lmfit is a contract stub; leastsq/boukamp only in the constraint obligations",
+    },
     "C14": {
         "category": "model_checking",
         "text": "Inductive step over the parameter state machine: from every state satisfying the representation invariant "
@@ -150,6 +163,17 @@ CLAIMED = {
         "design_ref": "DESIGN.md section 4, C16",
         "note": "lmfit.Parameters/MinimizerResult and pandas.DataFrame replaced by name->value stand-ins; <=3 (4) elements; one known finding "
                 "(variable naming of equally labelled elements of different types)",
+    },
+    "C17": {
+        "category": "other",
+        "text": "Schedules are solver variables: multiprocessing.Pool is a stub whose imap_unordered delivers the workers' results in a permutation "
+                "chosen by solver-driven exploration (every arrival order is a path) and whose imap/map keep submission order; worker functions are "
+                "deterministic stubs with symbolic, pairwise distinct pseudo chi-squared values (log monotone). The real collection/selection code "
+                "of perform_zhit (both unordered stages, 4 candidates), fit_circuit (3 methods succeeding or failing) and evaluate_log_F_ext (10 "
+                "evaluations) must return the same winner with the same numbers for every arrival order and for num_procs = 1 vs > 1.",
+        "design_ref": "DESIGN.md section 4, C17",
+        "note": "PARTIAL: real process scheduling, BLAS threading and the bit-identity of seeded mock data (numpy RandomState) are not covered; ties "
+                "between sort keys are outside the claim",
     },
     "C18": {
         "category": "model_checking",
